@@ -26,6 +26,7 @@
 #include "core.h"
 #include "config.h"
 #include "vf.h"
+#include "c_stage.h"
 
 const char *vf_name = "c05_elems";
 
@@ -785,7 +786,8 @@ static uint64_t n_hist(void) { return vf_thorough ? 3600000 : 120000; }
 static uint64_t n_meta(void) { return vf_thorough ? 200000 : 20000; }
 static uint64_t n_arr(void) { return vf_thorough ? 200000 : 20000; }
 static uint64_t n_blt(void) { return vf_thorough ? 300000 : 30000; }
-uint64_t vf_cases(void) { return n_hist() + n_meta() + n_arr() + n_blt(); }
+static uint64_t n_stg(void) { return vf_thorough ? 200000 : 20000; }
+uint64_t vf_cases(void) { return n_hist() + n_meta() + n_arr() + n_blt() + n_stg(); }
 
 void vf_case(uint64_t idx, vf_rng *r)
 {
@@ -796,7 +798,8 @@ void vf_case(uint64_t idx, vf_rng *r)
 		idx -= n_hist();
 		if (idx < n_meta()) case_metaref(r);
 		else if (idx < n_meta() + n_arr()) case_arrarr(r);
-		else case_builtin(r, idx % 3 == 0);
+		else if (idx < n_meta() + n_arr() + n_blt()) case_builtin(r, idx % 3 == 0);
+		else stage_history(r, "stage");
 		return;
 	}
 	char desc[1900];
